@@ -589,8 +589,8 @@ def quiet_htslib():
 
 def run(ctx):
     quiet_htslib()
-    run_direct(ctx, ctx.n(400, 5000))
-    run_cli(ctx, ctx.n(80, 900))
+    run_direct(ctx, ctx.n(600, 5000))
+    run_cli(ctx, ctx.n(120, 900))
 
 
 def replay(ctx, data):
